@@ -1,4 +1,4 @@
-\* Exhaustive model check of the emission schedule: 1..3 periods, thirds and halves, all block partitions of 0..10
+\* Exhaustive model check of the emission schedule: 1..2 periods, thirds and halves, all block partitions of 0..10
 SPECIFICATION Spec
 CONSTANTS
   P = 100
@@ -10,13 +10,13 @@ CONSTANTS
   Supply0 = 1000
   MaxUpdates = 0
   Quirks = {}
-  Amounts = {3, 10}
+  Amounts = {3, 7, 10}
   Ends = {2, 4, 6, 8}
   Starts = {0, 2}
-  Steps = {2, 3}
+  Steps = {2, 3, 4}
   MultNums = {0, 1, 2}
   MultDen = 2
-  MaxPeriods = 3
+  MaxPeriods = 2
 INVARIANTS TypeOK ScheduleConformance LinearExact CarryOK NonNegBlock NeverHalts CurrentPeriodExists StoredParamsValid InflationZeroCases
 PROPERTIES Monotone ExportNeutral MintEventIsDelta InflationMatchesEmission
 VIEW ViewNoAct
